@@ -269,7 +269,7 @@ func (c *Ctx) summaries(rule string) *core.Summaries {
 				}
 			}
 		}
-		R.Check(ok && n >= 2, rule, "summary:reset:len(Msg)==size", c.atFn(reset), "after reset(size) the message window is exactly size bytes long (every return)", sprintf("proved len(Msg) == size at %d return(s) by E-LIN", n), "cannot prove len(reader.Msg) == size at every return of reset: the message window may be shorter or longer than the declared body")
+		R.Check(ok && n >= 1, rule, "summary:reset:len(Msg)==size", c.atFn(reset), "after reset(size) the message window is exactly size bytes long (every return)", sprintf("proved len(Msg) == size at %d return(s) by E-LIN", n), "cannot prove len(reader.Msg) == size at every return of reset: the message window may be shorter or longer than the declared body")
 		if ok && n >= 2 {
 			s.ResetLen = reset
 		}
